@@ -307,6 +307,9 @@ struct FnEmit
         segLabels.push_back(label);
         ++nSeg;
         os << " " << label << ": ;\n";
+        // diagnosis aid: a one-iteration marker loop per block makes `cbmc --verbosity 9` print a line when symex reaches the block
+        static bool markers = getenv("VERIF_MARKERS") != nullptr;
+        if (markers) os << "  { int verif_mk = 0; while (verif_mk < 1) verif_mk++; }\n";
         if (res && C.chain) os << "  if (verif_mode) goto " << nextTok() << ";\n";
     }
     std::vector<std::pair<int, std::string>> resumeFlags;    // flat: pc value -> flag of the segment to re-enter
